@@ -1011,6 +1011,20 @@ func raftRMWGroup(c *Ctx, rule string) {
 			continue
 		}
 		bodies := append([]*ssa.Function{fn}, fn.AnonFuncs...)
+		// the read-modify-write may live in a same-package helper of the command (and its closures)
+		for _, cs := range Calls(fn, true, func(*ssa.CallCommon) bool { return true }) {
+			cal := cs.Common().StaticCallee()
+			if cal == nil || cal.Blocks == nil || cal.Pkg != fn.Pkg || slices.Contains(bodies, cal) {
+				continue
+			}
+			if readAt(cs.Common()) || readFresh(cs.Common()) || writeAt(cs.Common()) || writeFresh(cs.Common()) {
+				continue
+			}
+			if len(Calls(cal, true, func(cc *ssa.CallCommon) bool { return readAt(cc) || readFresh(cc) })) > 0 {
+				bodies = append(bodies, cal)
+				bodies = append(bodies, cal.AnonFuncs...)
+			}
+		}
 		for _, g := range bodies {
 			reads := Calls(g, false, func(cc *ssa.CallCommon) bool { return readAt(cc) || readFresh(cc) })
 			writes := Calls(g, false, func(cc *ssa.CallCommon) bool { return writeAt(cc) || writeFresh(cc) })
